@@ -266,6 +266,110 @@ async def tcp_case(ctx, stream: bytes, chunk_sizes: list[int], writes: list[str]
     ctx.case(("tcp", stream, tuple(chunk_sizes[:20]), tuple(writes), fault), nontrivial=True, sample=case)
 
 
+async def reconnect_case(ctx, first_end: str, stream: bytes, writes: list[str]) -> None:
+    """One transport object, two sessions: the first ends with `first_end` (clean EOF, peer reset, nothing), then
+    disconnect, connect again - the second session must deliver the second stream's lines and carry the writes."""
+    from aiomysensors.transport.tcp import TCPTransport
+
+    received = bytearray()
+    sessions = {"n": 0}
+    second_done = asyncio.Event()
+    case = {"engine": "tcp-reconnect", "first_end": first_end, "stream": stream.hex(), "writes": writes}
+
+    async def handler(reader, writer) -> None:
+        sessions["n"] += 1
+        try:
+            if sessions["n"] == 1:
+                writer.write(b"first;session\n")
+                await writer.drain()
+                if first_end == "reset":
+                    sock = writer.get_extra_info("socket")
+                    sock.setsockopt(socket.SOL_SOCKET, socket.SO_LINGER, struct.pack("ii", 1, 0))
+                    writer.transport.abort()
+                    return
+                if first_end == "eof":
+                    writer.write_eof()
+                await reader.read()
+            else:
+                writer.write(stream)
+                await writer.drain()
+                writer.write_eof()
+                while True:
+                    data = await reader.read(65536)
+                    if not data:
+                        break
+                    received.extend(data)
+                second_done.set()
+        except OSError:
+            pass
+        finally:
+            writer.close()
+
+    server = await asyncio.start_server(handler, "127.0.0.1", 0)
+    transport = TCPTransport("127.0.0.1", server.sockets[0].getsockname()[1])
+    try:
+        await transport.connect()
+        for _ in range(3):
+            try:
+                await asyncio.wait_for(transport.read(), 5)
+            except Exception as exc:  # noqa: BLE001
+                if not is_transport_error(exc) and not isinstance(exc, asyncio.TimeoutError):
+                    ctx.violation("io-error-not-transport-error", f"first session read raised {type(exc).__name__}", case)
+                break
+        if first_end == "reset":
+            for i in range(4):
+                try:
+                    await transport.write(f"x{i}\n")
+                    await asyncio.sleep(0.003)
+                except Exception:  # noqa: BLE001
+                    break
+        ctx.clause("disconnect-absorbs-os-errors")
+        try:
+            await asyncio.wait_for(transport.disconnect(), 10)
+        except Exception as exc:  # noqa: BLE001
+            ctx.violation("disconnect-raises", f"disconnect after {first_end} raised {type(exc).__name__}: {exc!s:.80}", case)
+        ctx.clause("reconnect")
+        try:
+            await asyncio.wait_for(transport.connect(), 10)
+        except Exception as exc:  # noqa: BLE001
+            ctx.violation("reconnect-failed", f"second connect raised {type(exc).__name__}: {exc!s:.80}", case)
+            return
+        expected = reference(stream, True)
+        results: list[tuple[str, object]] = []
+        for _ in range(len(expected)):
+            try:
+                results.append(("line", await asyncio.wait_for(transport.read(), 5)))
+            except asyncio.TimeoutError:
+                results.append(("error", TimeoutError("read did not complete in the second session")))
+                break
+            except Exception as exc:  # noqa: BLE001
+                results.append(("error", exc))
+        if sessions["n"] < 2:
+            ctx.violation("reconnect-did-not-connect", f"after disconnect + connect the peer saw {sessions['n']} connection(s); "
+                                                       f"reads gave {[(k, str(v)[:40]) for k, v in results[:2]]}", case)
+            return
+        judge_reads(ctx, case, stream, True, results)
+        for line in writes:
+            try:
+                await transport.write(line)
+            except Exception as exc:  # noqa: BLE001
+                ctx.violation("write-failed-after-reconnect", f"write in the second session raised {type(exc).__name__}: "
+                                                              f"{exc!s:.60}", case)
+                return
+        await transport.disconnect()
+        try:
+            await asyncio.wait_for(second_done.wait(), 5)
+        except asyncio.TimeoutError:
+            pass
+        ctx.clause("bytes-at-peer")
+        if bytes(received) != "".join(writes).encode():
+            ctx.violation("written-bytes-differ", f"second session: peer received {bytes(received)!r:.80}", case)
+    finally:
+        server.close()
+        await server.wait_closed()
+    ctx.case(("reconnect", first_end, stream, tuple(writes)), nontrivial=True, sample=case)
+
+
 async def serial_case(ctx, stream: bytes, chunk_sizes: list[int], writes: list[str]) -> None:
     """(c) pty-backed SerialTransport."""
     from aiomysensors.transport.serial import SerialTransport
@@ -420,6 +524,8 @@ def run_case(ctx, case: dict) -> None:
         arun(reader_case(ctx, bytes.fromhex(case["stream"]), tuple(case["cuts"]), case["eof"]))
     elif case.get("engine") == "tcp" and not str(case["stream"]).startswith("<"):
         arun(tcp_case(ctx, bytes.fromhex(case["stream"]), case["chunks"], case["writes"], case.get("fault")))
+    elif case.get("engine") == "tcp-reconnect":
+        arun(reconnect_case(ctx, case["first_end"], bytes.fromhex(case["stream"]), case["writes"]))
     elif case.get("engine") == "serial-pty" and not str(case["stream"]).startswith("<"):
         arun(serial_case(ctx, bytes.fromhex(case["stream"]), case["chunks"], case["writes"]))
     else:
@@ -466,6 +572,9 @@ def run(ctx) -> None:
                 sizes = [rng.choice([1, 2, 3, 7, 64, 1000, 65536]) for _ in range(rng.randint(1, 8))]
                 fault = "reset-after-stream" if i % 5 == 0 else None
                 arun(tcp_case(ctx, stream, sizes, random_writes(rng), fault))
+            for i, first_end in enumerate(("eof", "reset", "open", "reset", "eof")):
+                if ctx.mine(i):
+                    arun(reconnect_case(ctx, first_end, b"second;1\nsecond;2\n", ["w1\n", "w2 \xe5\n"]))
         # pty
         try:
             a, b = os.openpty()
